@@ -210,7 +210,10 @@ def parse_with_formats(date_string, date_formats, settings):
                 today = datetime.today()
                 date_obj = date_obj.replace(year=today.year)
 
-            date_obj = apply_timezone_from_settings(date_obj, settings)
+            try:
+                date_obj = apply_timezone_from_settings(date_obj, settings)
+            except OverflowError:
+                continue
 
             return DateData(date_obj=date_obj, period=period)
     else:
@@ -251,10 +254,14 @@ class _DateLocaleParser:
             return None
 
     def _try_timestamp_parser(self, negative=False):
-        return DateData(
-            date_obj=get_date_from_timestamp(
+        try:
+            date_obj = get_date_from_timestamp(
                 self.date_string, self._settings, negative=negative
-            ),
+            )
+        except OverflowError:
+            return None
+        return DateData(
+            date_obj=date_obj,
             period="time" if self._settings.RETURN_TIME_AS_PERIOD else "day",
         )
 
@@ -296,7 +303,7 @@ class _DateLocaleParser:
                 date_obj=date_obj,
                 period=period,
             )
-        except ValueError:
+        except (ValueError, OverflowError):
             self._settings.DATE_ORDER = _order
             return None
 
